@@ -107,14 +107,16 @@ def setup_env(virtual_sleep=True):
     if virtual_sleep:
         sm.asyncio = proxy
     import frontend.server.services.service as sservice
-    sent_log = []
+    import collections
+    sent_log = collections.deque(maxlen=4000)   # (sequence number, sid, message type)
+    sent_seq = [0]
     orig_send = sservice.send_message
 
     def recording_send(websocket, sid, msg_type, content, **additional_field):
-        sent_log.append((sid, msg_type, asyncio.get_event_loop().time()))
-        if len(sent_log) > 5000:
-            del sent_log[:2500]
+        sent_seq[0] += 1
+        sent_log.append((sent_seq[0], sid, msg_type))
         return orig_send(websocket, sid, msg_type, content, **additional_field)
+    _env["sent_seq"] = sent_seq
     sservice.send_message = recording_send
     _env["sent_log"] = sent_log
     _env.update(global_config=global_config, connector=connector, sm=sm, sfm=sfm, cservice=cservice, cfm=cfm,
